@@ -62,6 +62,18 @@ func runC15(c *core.Ctx) {
 				c15After(c, cv.Name(), caseID, d, ad, wd, bd)
 				c.Obs("conversion_mismatches", 1)
 				c.Sample("conversion", d)
+				// the same two channel counts with EQUAL total sample counts
+				// (a channels x b frames against b channels x a frames)
+				as2 := mon.NewArena(cv.S, a, b+2, a+b)
+				ws2 := as2.Window(1, 1+b, 0, 0)
+				ad2 := mon.NewArena(cv.D, b, a+2, a+b)
+				wd2 := ad2.Window(0, a, 0, 0)
+				d2 := map[string]any{"fn": cv.Name(), "src_channels": a, "dst_channels": b, "src_frames": b, "dst_frames": a, "equal_totals": true}
+				bs2, bd2 := mon.ShapeOf(ws2.B), mon.ShapeOf(wd2.B)
+				mustPanic(cv.Name(), caseID+"/equal-totals", d2, func() { cv.Call(ws2.B, wd2.B) })
+				c15After(c, cv.Name(), caseID+"/equal-totals", d2, as2, ws2, bs2)
+				c15After(c, cv.Name(), caseID+"/equal-totals", d2, ad2, wd2, bd2)
+				c.Obs("conversion_mismatches_with_equal_total_sample_counts", 1)
 			}
 		}
 	}
